@@ -100,8 +100,17 @@ def handle (j : J) : J :=
     match r with
     | .err e => .obj [("err", .str e)]
     | .fuel => .obj [("err", .str "fuel")]
-    | .ok o => .obj [("ret", J.ofOpt nodeToJson o.ret), ("orig", nodeToJson o.orig),
-                     ("log", logToJson o.st), ("top", .arr (o.tr.map evToJson))]
+    | .ok o =>
+      if j.boolD "compact" then
+        -- `orig` is omitted when it equals `ret` (the usual case): ("same", true)
+        match o.ret with
+        | some r =>
+          if Node.beq r o.orig then .obj [("ret", nodeToJson r), ("same", .bool true), ("log", logToJson o.st)]
+          else .obj [("ret", nodeToJson r), ("orig", nodeToJson o.orig), ("log", logToJson o.st)]
+        | none => .obj [("ret", .null), ("orig", nodeToJson o.orig), ("log", logToJson o.st)]
+      else
+        .obj [("ret", J.ofOpt nodeToJson o.ret), ("orig", nodeToJson o.orig),
+              ("log", logToJson o.st), ("top", .arr (o.tr.map evToJson))]
   | "spec_events" =>
     .obj [("events", .arr ((Spec.events (nodeOfJson (j.getD "tree"))).map evToJson))]
   | "edit" =>
